@@ -10,10 +10,12 @@ import (
 	"github.com/rs/zerolog/log"
 )
 
-var k = koanf.New(".")
-
 // updatePackageInfoFromArgs overrides the fields in packageInfo using command-line arguments
 func updatePackageInfoFromArgs(packageInfo *packaging.PackageInfo, configArgs map[string]string) error {
+	// A new instance for every call: in watch mode this runs once per regeneration, and values loaded
+	// from an earlier _package.yml (e.g. a target section that has since been removed) must not survive.
+	k := koanf.New(".")
+
 	if err := k.Load(structs.Provider(packageInfo, "yaml"), nil); err != nil {
 		log.Panic().Msgf("error loading package info: %v", err)
 	}
